@@ -12,6 +12,7 @@ fn load_known(path: &str) -> Vec<Known> {
 fn main() {
     let a: Vec<String> = std::env::args().collect();
     if a.len() == 3 && a[1] == "chartable" { chartable::generate(&a[2]); return; }
+    if a.len() == 4 && a[1] == "c03worker" { util::install_panic_hook(); props::c03::worker(&a[2], a[3].parse().unwrap_or(0)); return; }
     if a.len() < 7 { eprintln!("usage: harness <prop> <quick|thorough> <seed> <driver> <known.json> <out.json>"); std::process::exit(2); }
     let (prop, tier, seed, driver, known, out) = (&a[1], &a[2], a[3].parse::<u64>().unwrap_or(1), &a[4], &a[5], &a[6]);
     util::install_panic_hook();
@@ -24,6 +25,12 @@ fn main() {
         "C04" => props::c04::run(&mut ctx),
         "C06" => props::c06::run(&mut ctx),
         "C07" => props::c07::run(&mut ctx),
+        "C02" => props::c02::run(&mut ctx),
+        "C03" => props::c03::run(&mut ctx),
+        "C14" => props::c14::run(&mut ctx),
+        "C05" => props::c05::run(&mut ctx),
+        "C17" => props::c17::run(&mut ctx),
+        "C18" => props::c18::run(&mut ctx),
         _ => { eprintln!("unknown property {prop}"); std::process::exit(2); }
     }
     ctx.finish(out);
